@@ -28,6 +28,23 @@ func init() {
 // programs with shared state that survives an evaluation: constant lazy lists, constant maps,
 // constant closures, recursive functions, partially consumed results
 var c10Corpus = []string{
+	// closures by the NUMBER of outer values they capture (none, one, one used twice, two) x recursive or not x where they are created
+	// (main body, closure body, callback of a list method): what a closure captured in one evaluation must not show in the next
+	// (seed C10-6: a recursive function capturing exactly one outer value was created once and shared afterwards - caught by a
+	// random program until the random stream moved; now deterministic)
+	"func pow(n) if n = 0 then 1 else a * pow(n - 1); pow(3)",
+	"let b = a + 1; func pw(n) if n = 0 then 1 else b * pw(n - 1); pw(2)",
+	"func p2(n) if n = 0 then a else (a + 1) * p2(n - 1) - a; p2(2)",
+	"let b = a * 2; func q(n) if n = 0 then a else b + q(n - 1); q(3)",
+	"func r(n) if n = 0 then 0 else 1 + r(n - 1); r(a % 5)",
+	"(k -> func s(n) if n = 0 then 1 else k * s(n - 1); s(3))(a)",
+	"let f = n -> if n = 0 then 1 else a * f(n - 1); f(3)",
+	"[1, 2].map(i -> func t(n) if n = 0 then i else a + t(n - 1); t(2)).sum()",
+	"let g = x -> x + a; g(1) + g(2)",
+	"let g = x -> x + 1; g(a) + g(2)",
+	"let b = a + 1; let g = x -> x * a + b; g(1) + g(2)",
+	"func pow(n) if n = 0 then 1 else a * pow(n - 1); [pow(1), pow(2)].map(e -> e + a)",
+	"func mk(k) (n -> if n = 0 then k else a + mk(k)(n - 1)); mk(a * 10)(2)",
 	"let l = numbers(1000).map(e -> e * 2); l[a] + l[a + 1]",
 	"let l = numbers(50).map(e -> e * 2).accept(e -> e % 3 = 0); l.first() + l.size() + a",
 	"let l = [3, 1, 2]; l.append(a).size() + l.size() + l.order(e -> e).first() + l.reverse().first()",
